@@ -79,6 +79,14 @@ def run_replay(ctx: Ctx, pid: str, path: str) -> None:
         from .aggsym_trace import replay_trace
         replay_trace(ctx, pid, p)
         return
+    if p.get("kind") in ("many", "trace-many"):           # many-row instances with a common offset (AggSymMany)
+        from .aggsym_many import replay_many
+        replay_many(ctx, pid, p)
+        return
+    if p.get("kind") in ("cancel", "trace-cancel"):       # GradDrop on cancelling columns (AggSymCancel)
+        from .aggsym_cancel import replay_cancel
+        replay_cancel(ctx, pid, p)
+        return
     job = {"pid": pid, "scn": [p["scenario"]], "scales": [p["e"]], "seed": rec.get("seed", ctx.seed),
            "cagrad": True, "only": p["agg"], "hist_all": True}
     if p.get("clause") == "near-max":
